@@ -25,6 +25,12 @@ structure Arr where
   end_ : Option P := none                         -- `_end.item`
   cap : Nat := 0                                  -- `_capacity`
 
+/-- the object a `const Array&` parameter refers to: another array (a snapshot: it is not written), or `*this` (`none`) -/
+def oth (o : Option Arr) (A : Arr) : Arr :=
+  match o with
+  | none => A
+  | some B => B
+
 /-- `*p` as an rvalue -/
 def rd (M : Mem) (p : Option P) : Option Int :=
   match p with
